@@ -58,6 +58,12 @@ def draw_config(rng, mode="bounded", allow_restart=False, faults=True):
         w["restart"] = 0
     c["weights"] = w
     c["p_inflight_fault"] = rng.choice([0.0, 0.3, 0.6])
+    # state-aware bias towards jobs that something still refers to (a blocked waiter's list, a drop mark):
+    # killing / re-adding / finishing exactly those is where incarnations get mixed up
+    c["bias_refs"] = rng.random() < 0.5
+    # a directed motif woven into the random steps of some runs (see QsRun._motif_step)
+    c["motif"] = {"drop": rng.random() < 0.6, "p": rng.choice([0.4, 0.7])} if rng.random() < 0.1 else None
+    c["backdoor"] = rng.random() < 0.06  # deployment knob QSERVE_BACKDOOR
     c["faults"] = faults
     return c
 
@@ -187,6 +193,10 @@ class QsRun:
                 sim.connect(name)
             self._quiesce()
             ok = True
+        elif op == "backdoor":
+            ok = sim.enable_backdoor()
+            if ok:
+                self.fault("config-backdoor-enabled")
         else:
             ok = self.step_extra(st)
         if sim.violation is not None:
@@ -206,6 +216,8 @@ class QsRun:
     # ---- generation -----------------------------------------------------------
     def prologue(self):
         c = self.config
+        if c.get("backdoor"):
+            self.do(["backdoor"])
         for name in c.clients + c.workers:
             self.do(["connect", name])
         self.do(["run"])
@@ -213,8 +225,61 @@ class QsRun:
     def _sendable(self, names):
         return [n for n in names if self.sim.can_send(n)]
 
+    def _motif_step(self):
+        """'A new incarnation under a waiter': [mark R for dropping;] a client waits for [M, R] and blocks
+        on M; R is killed and added again under its id; M finishes and the waiter moves on to R.  Emitted
+        step by step between random steps; each step is resolved against the state at that moment."""
+        m, rng, model, c = self._motif_state, self.rng, self.model, self.config
+        sendable = self._sendable(c.clients + c.workers)
+        if not sendable:
+            return None
+        cid = self.sim.cid
+        if m["stage"] == 0:
+            live = sorted([j for j in model.jobs.values() if j.state != "d"], key=lambda j: j.serial)
+            if len(live) < 2:
+                m["adds"] = m.get("adds", 0) + 1
+                if m["adds"] > 6:
+                    self._motif_state = None
+                    return None
+                return ["send", rng.choice(sendable), "qadd", self._add_args()]
+            pref = [j for j in live if isinstance(j.jobid, str) and "render" in j.jobid] or live
+            r_ = rng.choice(pref)
+            m_ = rng.choice([j for j in live if j is not r_])
+            m.update(R=r_.jobid, Rchan=r_.channel, M=m_.jobid, stage=1 if m["drop"] else 2)
+        st = None
+        if m["stage"] == 1:
+            st = ["send", rng.choice(sendable), "qdrop", {"jobids": [m["R"]]}]
+        elif m["stage"] == 2:
+            pool = [n for n in sendable if n in c.clients] or sendable
+            st = ["send", rng.choice(pool), "qwait", {"jobids": [m["M"], m["R"]]}]
+        elif m["stage"] == 3:
+            st = ["send", rng.choice(sendable), "qkill", {"jobids": [m["R"]]}]
+        elif m["stage"] == 4:
+            a = self._add_args()
+            a["channel"], a["jobid"] = m["Rchan"], m["R"]
+            a.pop("wait", None)
+            st = ["send", rng.choice(sendable), "qadd", a]
+        elif m["stage"] == 5:
+            j = model.jobs.get(m["M"])
+            hn = [n for n in sendable if j is not None and j.holder == cid(n)]
+            st = ["send", hn[0] if hn else rng.choice(sendable), "qfinish", {"jobid": m["M"], "result": {"r": rng.randrange(1000)}}]
+        m["stage"] += 1
+        if m["stage"] > 5:
+            self._motif_state = None
+            self.fault("motif-reincarnation-under-waiter")
+        return st
+
     def gen_step(self):
         c, rng, sim, model = self.config, self.rng, self.sim, self.model
+        if getattr(self, "_motif_state", None) is None and c.get("motif") and not getattr(self, "_motif_done", False) \
+                and len(self.steps) >= 4:
+            self._motif_done = True
+            self._motif_state = dict(c["motif"], stage=0)
+        if getattr(self, "_motif_state", None) is not None and self._events_in_quantum == 0 \
+                and rng.random() < self._motif_state["p"]:
+            st = self._motif_step()
+            if st is not None:
+                return st
         w = dict(c.weights)
         allc = c.clients + c.workers
         sendable = self._sendable(allc)
@@ -270,7 +335,10 @@ class QsRun:
     def _add_args(self, channel=None, wait=False):
         c, rng = self.config, self.rng
         a = {"channel": channel or rng.choice(c.channels), "priority": rng.choice(c.prios)}
-        if rng.random() >= c.p_noid:
+        k = self._readd_candidate() if (channel is None and self._bias(0.5)) else None
+        if k is not None:
+            a["channel"], a["jobid"] = k.channel, k.jobid
+        elif rng.random() >= c.p_noid:
             a["jobid"] = rng.choice(c.jobids)
         t = rng.choice(c.timeouts)
         if t is not None:
@@ -283,6 +351,29 @@ class QsRun:
         if wait:
             a["wait"] = True
         return a
+
+    def _wait_refs(self):
+        """(jobs a blocked waiter is waiting on right now, jobs later in such a waiter's list)."""
+        blocking, later = [], []
+        for conn in sorted(self.model.waits, key=str):
+            js = self.model.waits[conn]
+            k = next((i for i, j in enumerate(js) if j.state != "d"), None)
+            if k is None:
+                continue
+            blocking.append(js[k])
+            later.extend(js[k + 1:])
+        return blocking, later
+
+    def _bias(self, p):
+        return bool(self.config.get("bias_refs")) and self.rng.random() < p
+
+    def _readd_candidate(self):
+        """A killed job that a waiter's list or a drop mark still refers to."""
+        _b, later = self._wait_refs()
+        pool = [j for j in self.model.jobs.values() if j.state == "d" and j.error == "killed" and (j.drop or j in later)]
+        if not pool:
+            pool = [j for j in self.model.jobs.values() if j.state == "d" and j.error == "killed"]
+        return self.rng.choice(sorted(pool, key=lambda j: j.serial)) if pool else None
 
     def _known_id(self, prefer=None):
         rng, model = self.rng, self.model
@@ -325,6 +416,13 @@ class QsRun:
         else:
             name = rng.choice(sendable)
             jid = self._known_id()
+        blocking, later = self._wait_refs()
+        if blocking and later and self._bias(0.6):
+            # let a waiter move on to the next job of its list
+            j = rng.choice(sorted(blocking, key=lambda j: j.serial))
+            jid = j.jobid
+            hn = [n for n in sendable if j.holder == cid(n)]
+            name = hn[0] if hn else name
         a = {"jobid": jid}
         r = rng.random()
         if r < 0.6:
@@ -336,6 +434,10 @@ class QsRun:
     def g_kill(self, sendable, live, deadc):
         rng = self.rng
         ids = [self._known_id(lambda j: j.state != "d")]
+        _blocking, later = self._wait_refs()
+        later = [j for j in later if j.state != "d"]
+        if later and self._bias(0.6):
+            ids = [rng.choice(sorted(later, key=lambda j: j.serial)).jobid]
         if rng.random() < 0.3:
             ids.append(self._known_id())
         if rng.random() < 0.25:
@@ -348,6 +450,13 @@ class QsRun:
         ids = [self._known_id()]
         if rng.random() < 0.3:
             ids.append(self._known_id())
+        marked = sorted([j for j in self.model.jobs.values() if j.drop], key=lambda j: j.serial)
+        if self._bias(0.6):
+            # first an unfinished job (the waiter blocks there), then one that is drop-marked or just any
+            first = self._known_id(lambda j: j.state != "d")
+            second = rng.choice(marked).jobid if marked and rng.random() < 0.7 else self._known_id()
+            if second != first:
+                ids = [first, second]
         pool = [n for n in sendable if n in self.config.clients] or sendable
         return ["send", rng.choice(pool), "qwait", {"jobids": ids}]
 
